@@ -178,6 +178,15 @@ def main(c):
         progs.append(rand_ea(rnd, rnd.randint(3, 40), rnd.choice([3, 10, 40, 300])))
         progs.append(eq_prog(rand_q(rnd, rnd.randint(3, 80), "eq"), rnd.choice([1, 2, 8, 24])))
         progs.append(sm_prog(rand_q(rnd, rnd.randint(3, 80), "sm")))
+    # one delete that has to strip a long run of deleted numbers (the queue behind the map compacts and shrinks in the middle of it)
+    for _ in range(c.pick(60, 1000)):
+        n = rnd.choice([4, 8, 9, 16, 17, 33, 64, 65, 200])
+        keep = rnd.choice([0, 0, 1, 3])
+        mid = list(range(1, n - keep))
+        rnd.shuffle(mid)
+        ops = [("add", i + 1) for i in range(n)] + [("delete", i) for i in mid] + [("getmin", 0), ("delete", 0), ("getmin", 0)]
+        ops += [("get", i) for i in (0, 1, n - keep - 1, n - keep, n - 1, n)] + [("add", 77), ("get", n), ("getmin", 0)]
+        progs.append(sm_prog(ops))
     for _ in range(c.pick(150, 2000)):
         progs.append(mp_prog(rnd, rnd.randint(2, 120), rnd.choice([2, 5, 9, 40])))
     # a few big ones: 10^4 records
